@@ -66,7 +66,7 @@ def _cdrfile_common(ctx, res, replay_ops, want_spec):
                               "or has another length than the format prescribes" % ("C15" if want_spec else "C14", t[2], t[3]),
                               [op, "# impl:  " + im[:300], "# model: " + mo[:300]])
             continue
-        if kind not in ("rt", "over", "rewrite", "afterfail"):
+        if kind not in ("rt", "over", "rewrite", "afterfail", "reuse"):
             # outside the property's domain (non-well-formed structures, damaged files):
             # model fidelity is reported, it does not decide the property
             agree = (im == mo) or (kind == "dec" and mo == "panic")
@@ -116,7 +116,7 @@ def _cdrfile_common(ctx, res, replay_ops, want_spec):
             ftoks = tt[2:] if tt[1] == "rt" else tt[5:] if tt[1] == "over" else tt[tt.index("|") + 1:]
             ot = o.split()
             if not (ot and ot[0] == "ok" and ot[1:] == ftoks):
-                how = {"rt": "", "afterfail": " (the write before this one had failed)", "over": " (the destination file existed before with other content)",
+                how = {"rt": "", "reuse": " (the reader value had decoded another file before)", "afterfail": " (the write before this one had failed)", "over": " (the destination file existed before with other content)",
                        "rewrite": " (the destination had been written by Encoding before, with another file)"}[tt[1]]
                 res.violation("layout", "independent TS 32.297 reader does not recover the structure from the "
                               "bytes written by Encoding" + how, [r.ops[i], "# impl bytes: " + spec_q[spec_idx.index(i)][:2000],
